@@ -328,3 +328,5 @@ MUTANTS = [
 
 RENAME_FUNCS = [(ML, 'Melody.to_sequence'), (DL, 'DrumTrack.to_sequence'), (CL, 'ChordProgression.to_sequence'), (PR, 'PianorollSequence.to_sequence'),
                 (PL, 'BasePerformance._to_sequence'), (PL, 'Performance.to_sequence'), (PL, 'MetricPerformance.to_sequence'), (PL, 'NotePerformance.to_sequence')]
+
+EXPLANATION += (' Shared with C07: EXTRACT/roll-pitch-range, EXTRACT/roll-gap-index, EXTRACT/velocity-onsets-only. ORIGIN/start-step-once (normal-form coefficient of start_step in a rendered time). EXTRACT/step-order-invariant locates known finding F27.')
